@@ -301,4 +301,1169 @@ theorem inv_remove {s : State} (h : Inv s) (tk : Nat) (r : Req) (hl : lookup s t
     have := inv_dropDisarmed hc _ hmem rfl
     simpa [htk] using this
 
+/-! ### Timer.start / reschedule -/
+
+theorem inv_setTimeout {s : State} (h : Inv s) (rid n : Nat) :
+    Inv { s with requests := setTimeout s.requests rid n } := by
+  obtain ⟨a, b, c, d, e, f, g, i⟩ := h
+  constructor <;> simp only [setTimeout] <;> try assumption
+  · intro r hr
+    obtain ⟨r0, hr0, rfl⟩ := List.mem_map.1 hr
+    have := b r0 hr0
+    split <;> simpa using this
+  · intro r1 hr1 r2 hr2 heq
+    obtain ⟨q1, hq1, rfl⟩ := List.mem_map.1 hr1
+    obtain ⟨q2, hq2, rfl⟩ := List.mem_map.1 hr2
+    have : q1 = q2 := c q1 hq1 q2 hq2 (by grind)
+    subst this; rfl
+  · intro t ht hc
+    obtain ⟨r, hr, h1, h2, h3⟩ := f t ht hc
+    refine ⟨_, List.mem_map.2 ⟨r, hr, rfl⟩, ?_⟩
+    split <;> simp_all
+  · intro r hr id hid
+    obtain ⟨r0, hr0, rfl⟩ := List.mem_map.1 hr
+    have := g r0 hr0 id (by grind)
+    grind
+  · intro r hr hto
+    obtain ⟨r0, hr0, rfl⟩ := List.mem_map.1 hr
+    have := i r0 hr0
+    grind
+
+theorem inv_timerStart {s : State} (h : Inv s) (rid tk T : Nat)
+    (hq : ∃ q ∈ s.requests, q.rid = rid ∧ q.ticket = tk ∧ q.handle = none ∧ q.timeout ≠ none) :
+    Inv (timerStart s rid tk T) := by
+  obtain ⟨q, hqm, hq1, hq2, hq3, hq4⟩ := hq
+  obtain ⟨a, b, c, d, e, f, g, i⟩ := h
+  unfold timerStart
+  constructor <;> simp only [setHandle] <;> try assumption
+  · intro r hr
+    obtain ⟨r0, hr0, rfl⟩ := List.mem_map.1 hr
+    have := b r0 hr0
+    split <;> simpa using this
+  · intro r1 hr1 r2 hr2 heq
+    obtain ⟨q1, hq1, rfl⟩ := List.mem_map.1 hr1
+    obtain ⟨q2, hq2, rfl⟩ := List.mem_map.1 hr2
+    have : q1 = q2 := c q1 hq1 q2 hq2 (by grind)
+    subst this; rfl
+  · intro t ht
+    rcases List.mem_append.1 ht with ht | ht
+    · have := d t ht; omega
+    · simp at ht; subst ht; simp
+  · rw [List.pairwise_append]
+    refine ⟨e, by simp, ?_⟩
+    intro x hx y hy
+    simp at hy; subst hy
+    have := d x hx
+    simp; omega
+  · intro t ht hc
+    rcases List.mem_append.1 ht with ht | ht
+    · obtain ⟨r, hr, h1, h2, h3⟩ := f t ht hc
+      have hne : r.rid ≠ rid := by
+        intro heq
+        have := c r hr q hqm (by omega)
+        grind
+      exact ⟨r, List.mem_map.2 ⟨r, hr, by simp [hne]⟩, h1, h2, h3⟩
+    · simp at ht; subst ht
+      exact ⟨{ q with handle := some s.nextTask }, List.mem_map.2 ⟨q, hqm, by simp [hq1]⟩, by simpa using hq1,
+        by simpa using hq2, rfl⟩
+  · intro r hr id hid
+    obtain ⟨r0, hr0, rfl⟩ := List.mem_map.1 hr
+    by_cases hr : r0.rid = rid
+    · simp only [hr, if_true] at hid ⊢
+      refine ⟨_, List.mem_append.2 (.inr (List.mem_singleton.2 rfl)), ?_⟩
+      simp at hid; simp [hid]
+    · simp only [hr, if_false] at hid ⊢
+      obtain ⟨t, ht, h1⟩ := g r0 hr0 id hid
+      exact ⟨t, List.mem_append.2 (.inl ht), h1⟩
+  · intro r hr hto
+    obtain ⟨r0, hr0, rfl⟩ := List.mem_map.1 hr
+    by_cases hr : r0.rid = rid
+    · have := c r0 hr0 q hqm (by omega)
+      subst this
+      simp [hr] at hto
+      exact absurd hto hq4
+    · simp only [hr, if_false] at hto ⊢
+      exact i r0 hr0 hto
+
+/-- `requests[tk].timer.reschedule(n)` -/
+theorem inv_reschedule {s : State} (h : Inv s) (tk n : Nat) : Inv (step s (.timerReschedule tk n)).1 := by
+  simp only [step]
+  cases hl : lookup s tk with
+  | none => simpa using h
+  | some r =>
+    obtain ⟨hr, htk⟩ := lookup_some hl
+    cases hto : r.timeout with
+    | none => simpa [hto] using h
+    | some T0 =>
+      simp only [hto]
+      have hc := inv_timerCancel h r hr
+      have hst := inv_setTimeout hc r.rid n
+      apply inv_timerStart hst
+      -- the request, with its handle cleared by `cancel` and its new timeout
+      refine ⟨{ r with handle := none, timeout := some n }, ?_, rfl, rfl, rfl, by simp⟩
+      cases hh : r.handle with
+      | none =>
+        simp only [timerCancel, setTimeout]
+        exact List.mem_map.2 ⟨r, hr, by simp [hh]⟩
+      | some id =>
+        simp only [timerCancel_some, setTimeout, setHandle, List.map_map]
+        exact List.mem_map.2 ⟨r, hr, by simp⟩
+
+/-! ### new requests -/
+
+theorem nextTicket_nowrap (initial d : Nat) (h : initial + d + 1 ≤ maxTicket) :
+    nextTicket initial (initial + d) = initial + d + 1 := by
+  unfold nextTicket
+  have : ¬ (initial + d + 1 > maxTicket) := by omega
+  simp [this]
+
+theorem newRequest_draws (s : State) (k : Kind) (to : Option Nat) : (newRequest s k to).1.draws = s.draws + 1 := by
+  unfold newRequest; cases to <;> simp [timerStart]
+
+theorem newRequest_cfg (s : State) (k : Kind) (to : Option Nat) : (newRequest s k to).1.cfg = s.cfg := by
+  unfold newRequest; cases to <;> simp [timerStart]
+
+theorem newRequest_now (s : State) (k : Kind) (to : Option Nat) : (newRequest s k to).1.now = s.now := by
+  unfold newRequest; cases to <;> simp [timerStart]
+
+/-- the registration part of `newRequest` (before `Timer.start`) -/
+def registered (s : State) (k : Kind) (to : Option Nat) : State :=
+  { s with gen := nextTicket s.cfg.initial s.gen, draws := s.draws + 1,
+           requests := s.requests.filter (fun r => r.ticket ≠ nextTicket s.cfg.initial s.gen) ++
+             [{ rid := s.draws + 1, ticket := nextTicket s.cfg.initial s.gen, kind := k, timeout := to,
+                handle := none, results := 0 }] }
+
+theorem newRequest_state (s : State) (k : Kind) (to : Option Nat) :
+    (newRequest s k to).1 = match to with
+      | none => registered s k none
+      | some T => timerStart (registered s k (some T)) (s.draws + 1) (nextTicket s.cfg.initial s.gen) T := by
+  unfold newRequest registered; cases to <;> rfl
+
+theorem inv_registered {s : State} (h : Inv s) (k : Kind) (to : Option Nat)
+    (hw : s.cfg.initial + s.draws + 1 ≤ maxTicket) : Inv (registered s k to) := by
+  obtain ⟨a, b, c, d, e, f, g, i⟩ := h
+  have htk : nextTicket s.cfg.initial s.gen = s.cfg.initial + s.draws + 1 := by
+    rw [a]; exact nextTicket_nowrap _ _ hw
+  unfold registered
+  rw [htk]
+  constructor <;> simp only [] <;> try assumption
+  · omega
+  · intro r hr
+    rcases List.mem_append.1 hr with hr | hr
+    · have := b r (List.mem_filter.1 hr).1; omega
+    · simp at hr; subst hr; simp; omega
+  · intro r1 h1 r2 h2 heq
+    rcases List.mem_append.1 h1 with h1 | h1 <;> rcases List.mem_append.1 h2 with h2 | h2
+    · exact c r1 (List.mem_filter.1 h1).1 r2 (List.mem_filter.1 h2).1 heq
+    · have := b r1 (List.mem_filter.1 h1).1
+      simp at h2; subst h2; simp at heq; omega
+    · have := b r2 (List.mem_filter.1 h2).1
+      simp at h1; subst h1; simp at heq; omega
+    · simp at h1 h2; rw [h1, h2]
+  · intro t ht hc
+    obtain ⟨q, hq, h1, h2, h3⟩ := f t ht hc
+    refine ⟨q, List.mem_append.2 (.inl (List.mem_filter.2 ⟨hq, ?_⟩)), h1, h2, h3⟩
+    have := b q hq
+    simp; omega
+  · intro r hr id hid
+    rcases List.mem_append.1 hr with hr | hr
+    · exact g r (List.mem_filter.1 hr).1 id hid
+    · simp at hr; subst hr; simp at hid
+  · intro r hr hto
+    rcases List.mem_append.1 hr with hr | hr
+    · exact i r (List.mem_filter.1 hr).1 hto
+    · simp at hr; subst hr; rfl
+
+theorem inv_newRequest {s : State} (h : Inv s) (k : Kind) (to : Option Nat)
+    (hw : NoWrap (newRequest s k to).1) : Inv (newRequest s k to).1 := by
+  have hw' : s.cfg.initial + s.draws + 1 ≤ maxTicket := by
+    unfold NoWrap at hw; rw [newRequest_draws, newRequest_cfg] at hw; omega
+  rw [newRequest_state]
+  cases to with
+  | none => exact inv_registered h k none hw'
+  | some T =>
+    apply inv_timerStart (inv_registered h k (some T) hw')
+    refine ⟨_, List.mem_append.2 (.inr (List.mem_singleton.2 rfl)), rfl, rfl, rfl, by simp⟩
+
+/-- without a wrap no registered request is overwritten, and the only observation is the `sent` event -/
+theorem newRequest_obs {s : State} (h : Inv s) (k : Kind) (to : Option Nat)
+    (hw : NoWrap (newRequest s k to).1) :
+    (newRequest s k to).2 = [Obs.sent s.now (s.draws + 1) (s.cfg.initial + s.draws + 1)] := by
+  have hw' : s.cfg.initial + s.draws + 1 ≤ maxTicket := by
+    unfold NoWrap at hw; rw [newRequest_draws, newRequest_cfg] at hw; omega
+  have htk : nextTicket s.cfg.initial s.gen = s.cfg.initial + s.draws + 1 := by
+    rw [h.gen_eq]; exact nextTicket_nowrap _ _ hw'
+  unfold newRequest
+  simp only [htk]
+  have : s.requests.filter (fun r => r.ticket = s.cfg.initial + s.draws + 1) = [] := by
+    apply List.filter_eq_nil_iff.2
+    intro r hr
+    have := h.req_tk r hr
+    simp; omega
+  simp [this]
+
+/-! ### the loop runs: timer tasks -/
+
+@[simp] theorem unsetDone_rid (fin : List TTask) (r : Req) : (unsetDone fin r).rid = r.rid := by
+  unfold unsetDone; split <;> rfl
+@[simp] theorem unsetDone_ticket (fin : List TTask) (r : Req) : (unsetDone fin r).ticket = r.ticket := by
+  unfold unsetDone; split <;> rfl
+@[simp] theorem unsetDone_timeout (fin : List TTask) (r : Req) : (unsetDone fin r).timeout = r.timeout := by
+  unfold unsetDone; split <;> rfl
+@[simp] theorem unsetDone_results (fin : List TTask) (r : Req) : (unsetDone fin r).results = r.results := by
+  unfold unsetDone; split <;> rfl
+theorem unsetDone_handle (fin : List TTask) (r : Req) :
+    (unsetDone fin r).handle = if fin.any (fun t => t.rid = r.rid && r.handle == some t.id) then none else r.handle := by
+  unfold unsetDone; split <;> rfl
+
+theorem settleTimers_state (s : State) :
+    (settleTimers s).1 =
+      { s with tasks := (s.tasks.map (startTask s.now)).filter (fun t => !isFinishing s.now t),
+               requests := (s.requests.filter (fun r => ((s.tasks.map (startTask s.now)).filter (isDue s.now)).all
+                              (fun t => r.ticket ≠ t.ticket))).map
+                            (unsetDone ((s.tasks.map (startTask s.now)).filter (isFinishing s.now))) } := by
+  simp only [settleTimers, fireAll_state]
+
+theorem isDue_finishing {n : Nat} {t : TTask} (h : isDue n t = true) : isFinishing n t = true := by
+  unfold isDue at h; unfold isFinishing; simp_all
+
+/-- core: finishing / firing the timer tasks of a state whose tasks have all taken their first step -/
+theorem inv_settleCore {s : State} (h : Inv s) (n : Nat) :
+    Inv { s with tasks := s.tasks.filter (fun t => !isFinishing n t),
+                 requests := (s.requests.filter (fun r => (s.tasks.filter (isDue n)).all
+                                (fun t => r.ticket ≠ t.ticket))).map (unsetDone (s.tasks.filter (isFinishing n))) } := by
+  have hinj := h.ticket_inj
+  obtain ⟨a, b, c, d, e, f, g, i⟩ := h
+  constructor <;> simp only [] <;> try assumption
+  · intro r hr
+    obtain ⟨q, hq, rfl⟩ := List.mem_map.1 hr
+    simpa using b q (List.mem_filter.1 hq).1
+  · intro r1 h1 r2 h2 heq
+    obtain ⟨q1, hq1, rfl⟩ := List.mem_map.1 h1
+    obtain ⟨q2, hq2, rfl⟩ := List.mem_map.1 h2
+    have := c q1 (List.mem_filter.1 hq1).1 q2 (List.mem_filter.1 hq2).1 (by simpa using heq)
+    subst this; rfl
+  · intro t ht; exact d t (List.mem_filter.1 ht).1
+  · exact e.filter _
+  · intro t ht hc
+    obtain ⟨htm, hnf⟩ := List.mem_filter.1 ht
+    obtain ⟨q, hq, h1, h2, h3⟩ := f t htm hc
+    have hsurv : (s.tasks.filter (isDue n)).all (fun x => q.ticket ≠ x.ticket) = true := by
+      rw [List.all_eq_true]
+      intro x hx
+      obtain ⟨hxm, hxd⟩ := List.mem_filter.1 hx
+      have hxc : x.cancelled = false := by unfold isDue at hxd; simp_all
+      obtain ⟨qx, hqx, k1, k2, k3⟩ := f x hxm hxc
+      have : q.ticket ≠ x.ticket := by
+        intro heq
+        have hqq := hinj q hq qx hqx (by omega)
+        subst hqq
+        have hid : t.id = x.id := by simpa [h3] using k3
+        have := pairwise_id_inj e t htm x hxm hid
+        subst this
+        have := isDue_finishing hxd
+        simp [this] at hnf
+      simpa using this
+    have hkeep : (unsetDone (s.tasks.filter (isFinishing n)) q).handle = some t.id := by
+      rw [unsetDone_handle]
+      have : (s.tasks.filter (isFinishing n)).any (fun x => x.rid = q.rid && q.handle == some x.id) = false := by
+        rw [List.any_eq_false]
+        intro x hx
+        obtain ⟨hxm, hxf⟩ := List.mem_filter.1 hx
+        intro hcon
+        simp only [Bool.and_eq_true, decide_eq_true_eq, beq_iff_eq] at hcon
+        have hid : t.id = x.id := by simpa [h3] using hcon.2
+        have := pairwise_id_inj e t htm x hxm hid
+        subst this
+        simp [hxf] at hnf
+      rw [if_neg (by rw [this]; simp)]
+      exact h3
+    exact ⟨_, List.mem_map.2 ⟨q, List.mem_filter.2 ⟨hq, hsurv⟩, rfl⟩, by simpa using h1, by simpa using h2, hkeep⟩
+  · intro r hr id hid
+    obtain ⟨q, hq, rfl⟩ := List.mem_map.1 hr
+    rw [unsetDone_handle] at hid
+    split at hid
+    · cases hid
+    · rename_i hany
+      obtain ⟨t, ht, k1, k2, k3⟩ := g q (List.mem_filter.1 hq).1 id hid
+      refine ⟨t, List.mem_filter.2 ⟨ht, ?_⟩, k1, by simpa using k2, k3⟩
+      cases hfin : isFinishing n t with
+      | false => rfl
+      | true =>
+        exfalso
+        apply hany
+        rw [List.any_eq_true]
+        refine ⟨t, List.mem_filter.2 ⟨ht, hfin⟩, ?_⟩
+        simp [k2, hid, k1]
+  · intro r hr hto
+    obtain ⟨q, hq, rfl⟩ := List.mem_map.1 hr
+    rw [unsetDone_handle]
+    have := i q (List.mem_filter.1 hq).1 (by simpa using hto)
+    simp [this]
+
+theorem inv_settleTimers {s : State} (h : Inv s) : Inv (settleTimers s).1 := by
+  rw [settleTimers_state]
+  exact inv_settleCore (inv_mapStart s.now h) s.now
+
+/-! ### wishlist rounds, settle, step -/
+
+theorem wishlistRound_cfg (n : Nat) (s : State) (o : List Obs) : (wishlistRound n s o).1.cfg = s.cfg := by
+  induction n generalizing s o with
+  | zero => rfl
+  | succ n ih => simp only [wishlistRound, ih, newRequest_cfg]
+
+theorem wishlistRound_now (n : Nat) (s : State) (o : List Obs) : (wishlistRound n s o).1.now = s.now := by
+  induction n generalizing s o with
+  | zero => rfl
+  | succ n ih => simp only [wishlistRound, ih, newRequest_now]
+
+theorem wishlistRound_draws (n : Nat) (s : State) (o : List Obs) : (wishlistRound n s o).1.draws = s.draws + n := by
+  induction n generalizing s o with
+  | zero => rfl
+  | succ n ih => simp only [wishlistRound, ih, newRequest_draws]; omega
+
+theorem inv_wishlistRound (n : Nat) {s : State} (o : List Obs) (h : Inv s) (hw : NoWrap (wishlistRound n s o).1) :
+    Inv (wishlistRound n s o).1 := by
+  induction n generalizing s o with
+  | zero => exact h
+  | succ n ih =>
+    simp only [wishlistRound] at hw ⊢
+    apply ih _ _ hw
+    apply inv_newRequest h
+    unfold NoWrap at hw ⊢
+    rw [wishlistRound_cfg, wishlistRound_draws] at hw
+    omega
+
+/-- a round only adds `sent` observations, for requests that did not exist before -/
+theorem wishlistRound_obs (n : Nat) {s : State} (o : List Obs) (h : Inv s) (hw : NoWrap (wishlistRound n s o).1) :
+    ∀ x ∈ (wishlistRound n s o).2, x ∈ o ∨ ∃ rid, x = Obs.sent s.now rid (s.cfg.initial + rid) ∧ s.draws < rid := by
+  induction n generalizing s o with
+  | zero => intro x hx; exact .inl hx
+  | succ n ih =>
+    simp only [wishlistRound] at hw ⊢
+    have hw1 : NoWrap (newRequest s .wishlist (wishlistTimeout s)).1 := by
+      unfold NoWrap at hw ⊢
+      rw [wishlistRound_cfg, wishlistRound_draws] at hw
+      omega
+    intro x hx
+    rcases ih _ (inv_newRequest h _ _ hw1) hw x hx with hx | ⟨rid, hx, hlt⟩
+    · rw [newRequest_obs h _ _ hw1] at hx
+      rcases List.mem_append.1 hx with hx | hx
+      · exact .inl hx
+      · right; refine ⟨s.draws + 1, ?_, by omega⟩
+        simp at hx; rw [hx]; simp [Nat.add_assoc]
+    · right
+      rw [newRequest_now, newRequest_cfg] at hx
+      rw [newRequest_draws] at hlt
+      exact ⟨rid, hx, by omega⟩
+
+theorem settleTimers_cfg (s : State) : (settleTimers s).1.cfg = s.cfg := by rw [settleTimers_state]
+theorem settleTimers_draws (s : State) : (settleTimers s).1.draws = s.draws := by rw [settleTimers_state]
+theorem settleTimers_now (s : State) : (settleTimers s).1.now = s.now := by rw [settleTimers_state]
+
+theorem settleWishlist_cfg (s : State) (o : List Obs) : (settleWishlist s o).1.cfg = s.cfg := by
+  unfold settleWishlist; split
+  · rfl
+  · split
+    · simp [wishlistRound_cfg]
+    · rfl
+
+theorem settleWishlist_draws (s : State) (o : List Obs) : s.draws ≤ (settleWishlist s o).1.draws := by
+  unfold settleWishlist; split
+  · exact Nat.le_refl _
+  · split
+    · simp [wishlistRound_draws]
+    · exact Nat.le_refl _
+
+theorem settleWishlist_round {s : State} (o : List Obs) {w : Nat} (h1 : s.wlNext = some w) (h2 : w ≤ s.now) :
+    settleWishlist s o =
+      ({ (wishlistRound s.cfg.items s o).1 with
+          wlNext := some (s.now + s.wlInterval.getD defaultWishlistInterval),
+          tasks := (wishlistRound s.cfg.items s o).1.tasks.map (startTask s.now) },
+       (wishlistRound s.cfg.items s o).2) := by
+  unfold settleWishlist; simp [h1, h2]
+
+theorem settleWishlist_idle {s : State} (o : List Obs) (h : ∀ w, s.wlNext = some w → ¬ w ≤ s.now) :
+    settleWishlist s o = (s, o) := by
+  unfold settleWishlist
+  cases hw : s.wlNext with
+  | none => rfl
+  | some w => simp [h w hw]
+
+/-- case split on whether the wishlist task runs a round -/
+theorem settleWishlist_cases (s : State) (o : List Obs) :
+    (settleWishlist s o = (s, o)) ∨
+    (∃ w, s.wlNext = some w ∧ w ≤ s.now ∧ settleWishlist s o =
+      ({ (wishlistRound s.cfg.items s o).1 with
+          wlNext := some (s.now + s.wlInterval.getD defaultWishlistInterval),
+          tasks := (wishlistRound s.cfg.items s o).1.tasks.map (startTask s.now) },
+       (wishlistRound s.cfg.items s o).2)) := by
+  cases hw : s.wlNext with
+  | none => left; exact settleWishlist_idle o (by simp [hw])
+  | some w =>
+    by_cases hle : w ≤ s.now
+    · right; exact ⟨w, rfl, hle, settleWishlist_round o hw hle⟩
+    · left; apply settleWishlist_idle o; intro w' hw'; rw [hw] at hw'; cases hw'; exact hle
+
+theorem inv_settleWishlist {s : State} (o : List Obs) (h : Inv s) (hw : NoWrap (settleWishlist s o).1) :
+    Inv (settleWishlist s o).1 := by
+  rcases settleWishlist_cases s o with he | ⟨w, _, _, he⟩
+  · rw [he]; exact h
+  · rw [he] at hw ⊢
+    have hw' : NoWrap (wishlistRound s.cfg.items s o).1 := hw
+    have := inv_mapStart s.now (inv_wishlistRound _ o h hw')
+    exact inv_congr this rfl rfl rfl rfl rfl rfl
+
+theorem settleWishlist_obs {s : State} (o : List Obs) (h : Inv s) (hw : NoWrap (settleWishlist s o).1) :
+    ∀ x ∈ (settleWishlist s o).2, x ∈ o ∨ ∃ rid, x = Obs.sent s.now rid (s.cfg.initial + rid) ∧ s.draws < rid := by
+  rcases settleWishlist_cases s o with he | ⟨w, _, _, he⟩
+  · rw [he]; intro x hx; exact .inl hx
+  · rw [he] at hw ⊢
+    exact wishlistRound_obs _ o h hw
+
+theorem inv_settle {s : State} (h : Inv s) (hw : NoWrap (settle s).1) : Inv (settle s).1 := by
+  unfold settle at hw ⊢
+  exact inv_settleWishlist _ (inv_settleTimers h) hw
+
+theorem timerCancel_cfg (s : State) (rid : Nat) (h : Option Nat) : (timerCancel s rid h).cfg = s.cfg := by
+  cases h <;> rfl
+theorem timerCancel_draws (s : State) (rid : Nat) (h : Option Nat) : (timerCancel s rid h).draws = s.draws := by
+  cases h <;> rfl
+theorem timerCancel_now (s : State) (rid : Nat) (h : Option Nat) : (timerCancel s rid h).now = s.now := by
+  cases h <;> rfl
+
+theorem step_cfg (s : State) (op : Op) : (step s op).1.cfg = s.cfg := by
+  cases op <;> simp only [step] <;> (repeat' split) <;>
+    simp [newRequest_cfg, timerCancel_cfg, timerStart, settle, settleWishlist_cfg, settleTimers_cfg]
+
+theorem settle_draws (s : State) : s.draws ≤ (settle s).1.draws := by
+  unfold settle
+  have := settleWishlist_draws (settleTimers s).1 (settleTimers s).2
+  rw [settleTimers_draws] at this; exact this
+
+theorem step_draws (s : State) (op : Op) : s.draws ≤ (step s op).1.draws := by
+  cases op <;> simp only [step] <;> (repeat' split) <;>
+    simp [newRequest_draws, timerCancel_draws, timerStart, settle_draws]
+
+theorem noWrap_of_step (s : State) (op : Op) (h : NoWrap (step s op).1) : NoWrap s := by
+  unfold NoWrap at h ⊢
+  rw [step_cfg] at h
+  have := step_draws s op
+  omega
+
+theorem inv_step {s : State} (op : Op) (h : Inv s) (hw : NoWrap (step s op).1) : Inv (step s op).1 := by
+  cases op with
+  | search k => exact inv_newRequest h _ _ hw
+  | wlInterval n => exact inv_congr h rfl rfl rfl rfl rfl rfl
+  | serverClosing => exact inv_congr h rfl rfl rfl rfl rfl rfl
+  | remove tk =>
+    cases hl : lookup s tk with
+    | none => simpa [step, hl] using h
+    | some r => exact inv_remove h tk r hl
+  | reply tk =>
+    simp only [step]
+    cases hl : lookup s tk with
+    | none => simpa using h
+    | some r =>
+      simp only []
+      cases hs : s.cfg.storeResults with
+      | false => simpa using inv_congr h rfl rfl rfl rfl rfl rfl
+      | true => simpa using inv_reply tk h
+  | timerCancel tk =>
+    simp only [step]
+    cases hl : lookup s tk with
+    | none => simpa using h
+    | some r =>
+      cases hto : r.timeout with
+      | none => simpa [hto] using h
+      | some T => simpa [hto] using inv_timerCancel h r (lookup_some hl).1
+  | timerReschedule tk n => exact inv_reschedule h tk n
+  | jump d => exact inv_congr h rfl rfl rfl rfl rfl rfl
+  | settle => exact inv_settle h hw
+
+theorem inv_init (cfg : Cfg) : Inv (init cfg) := by
+  constructor <;> simp [init]
+
+
+/-! ### what a step may report -/
+
+theorem fireAll_obs_ok (F : List TTask) (s : State) (o : List Obs)
+    (hp : F.Pairwise (fun a b => a.id ≠ b.id))
+    (hw : ∀ t ∈ F, ∃ r ∈ s.requests, r.ticket = t.ticket ∧ r.handle = some t.id)
+    (hinj : ∀ r1 ∈ s.requests, ∀ r2 ∈ s.requests, r1.ticket = r2.ticket → r1 = r2) :
+    ∀ x ∈ (fireAll F s o).2, x ∈ o ∨ ∃ t ∈ F, x = Obs.removed s.now t.rid t.ticket (t.deadline.getD 0) t.id := by
+  induction F generalizing s o with
+  | nil => intro x hx; exact .inl hx
+  | cons t ts ih =>
+    rw [List.pairwise_cons] at hp
+    obtain ⟨rt, hrt, hrt1, hrt2⟩ := hw t (by simp)
+    have hany : s.requests.any (fun r => r.ticket = t.ticket) = true := by
+      rw [List.any_eq_true]; exact ⟨rt, hrt, by simpa using hrt1⟩
+    have hfire : fireTask s t = ({ s with requests := s.requests.filter (fun r => r.ticket ≠ t.ticket) },
+        [Obs.removed s.now t.rid t.ticket (t.deadline.getD 0) t.id]) := by
+      unfold fireTask; rw [if_pos hany]
+    simp only [fireAll, hfire]
+    intro x hx
+    have := ih { s with requests := s.requests.filter (fun r => r.ticket ≠ t.ticket) } _ hp.2
+      (by
+        intro t2 ht2
+        obtain ⟨r2, hr2, k1, k2⟩ := hw t2 (by simp [ht2])
+        refine ⟨r2, List.mem_filter.2 ⟨hr2, ?_⟩, k1, k2⟩
+        have : r2.ticket ≠ t.ticket := by
+          intro heq
+          have := hinj r2 hr2 rt hrt (by omega)
+          subst this
+          have : t2.id = t.id := by simpa [k2] using hrt2
+          exact hp.1 t2 ht2 this.symm
+        simpa using this)
+      (by
+        intro r1 h1 r2 h2
+        exact hinj r1 (List.mem_filter.1 h1).1 r2 (List.mem_filter.1 h2).1)
+      x hx
+    rcases this with h | ⟨t', ht', h⟩
+    · rcases List.mem_append.1 h with h | h
+      · exact .inl h
+      · right; exact ⟨t, by simp, by simpa using h⟩
+    · right; exact ⟨t', by simp [ht'], h⟩
+
+def ObsOk (s : State) (op : Op) : Obs → Prop
+  | .sent t rid tk => t = s.now ∧ s.draws < rid ∧ tk = s.cfg.initial + rid
+  | .removed t rid tk dl tid =>
+    op = .settle ∧ t = s.now ∧ dl ≤ s.now ∧
+    (∃ task ∈ s.tasks, task.id = tid ∧ task.rid = rid ∧ task.cancelled = false ∧
+      (startTask s.now task).deadline = some dl) ∧
+    ∃ r ∈ s.requests, r.rid = rid ∧ r.ticket = tk ∧ r.handle = some tid
+  | .result t rid tk => op = .reply tk ∧ t = s.now ∧ ∃ r ∈ s.requests, r.rid = rid ∧ r.ticket = tk
+  | .loopErr _ _ _ _ => False
+  | .clobber _ _ => False
+  | .callerErr => ∃ tk, op = .remove tk ∧ ∀ r ∈ s.requests, r.ticket ≠ tk
+  | .noReq => True
+  | .noTimer => True
+
+theorem settleTimers_obs {s : State} (h : Inv s) : ∀ x ∈ (settleTimers s).2, ObsOk s .settle x := by
+  intro x hx
+  have h0 := inv_mapStart s.now h
+  simp only [settleTimers] at hx
+  have hF : ∀ t ∈ (s.tasks.map (startTask s.now)).filter (isDue s.now),
+      ∃ t0 ∈ s.tasks, t = startTask s.now t0 ∧ t0.cancelled = false ∧ reached s.now t = true := by
+    intro t ht
+    obtain ⟨htm, hd⟩ := List.mem_filter.1 ht
+    obtain ⟨t0, ht0, rfl⟩ := List.mem_map.1 htm
+    refine ⟨t0, ht0, rfl, ?_⟩
+    unfold isDue at hd
+    simpa using hd
+  have := fireAll_obs_ok _ s [] (h0.task_nodup.filter _)
+    (by
+      intro t ht
+      obtain ⟨t0, ht0, rfl, hc, _⟩ := hF t ht
+      obtain ⟨r, hr, _, k2, k3⟩ := h.task_live t0 ht0 hc
+      exact ⟨r, hr, by simpa using k2, by simpa using k3⟩)
+    h.ticket_inj x hx
+  rcases this with h' | ⟨t, ht, rfl⟩
+  · cases h'
+  · obtain ⟨t0, ht0, rfl, hc, hre⟩ := hF t ht
+    obtain ⟨r, hr, k1, k2, k3⟩ := h.task_live t0 ht0 hc
+    unfold reached at hre
+    cases hd : (startTask s.now t0).deadline with
+    | none => simp [hd] at hre
+    | some d =>
+      simp only [hd, decide_eq_true_eq] at hre
+      refine ⟨rfl, rfl, by simpa using hre, ⟨t0, ht0, by simp, by simp, hc, by simp [hd]⟩, r, hr, ?_⟩
+      simp [k1, k2, k3]
+
+theorem ObsOk_sent_mono {s s' : State} {op : Op} {t rid tk : Nat} (h : ObsOk s' op (.sent t rid tk))
+    (h1 : s'.now = s.now) (h2 : s.draws ≤ s'.draws) (h3 : s'.cfg = s.cfg) (op' : Op) :
+    ObsOk s op' (.sent t rid tk) := by
+  unfold ObsOk at h ⊢
+  rw [h1, h3] at h
+  exact ⟨h.1, by omega, h.2.2⟩
+
+theorem step_obs {s : State} (op : Op) (h : Inv s) (hw : NoWrap (step s op).1) :
+    ∀ x ∈ (step s op).2, ObsOk s op x := by
+  cases op with
+  | search k =>
+    intro x hx
+    simp only [step] at hx hw
+    rw [newRequest_obs h _ _ hw] at hx
+    simp at hx; subst hx
+    exact ⟨rfl, by omega, by omega⟩
+  | wlInterval n => intro x hx; cases hx
+  | serverClosing => intro x hx; cases hx
+  | jump d => intro x hx; cases hx
+  | remove tk =>
+    intro x hx
+    simp only [step] at hx
+    cases hl : lookup s tk with
+    | none =>
+      simp [hl] at hx; subst hx
+      exact ⟨tk, rfl, lookup_none hl⟩
+    | some r => simp [hl] at hx
+  | reply tk =>
+    intro x hx
+    simp only [step] at hx
+    cases hl : lookup s tk with
+    | none => simp [hl] at hx
+    | some r =>
+      simp [hl] at hx; subst hx
+      exact ⟨rfl, rfl, r, (lookup_some hl).1, rfl, (lookup_some hl).2⟩
+  | timerCancel tk =>
+    intro x hx
+    simp only [step] at hx
+    cases hl : lookup s tk with
+    | none => simp [hl] at hx; subst hx; trivial
+    | some r =>
+      cases hto : r.timeout with
+      | none => simp [hl, hto] at hx; subst hx; trivial
+      | some T => simp [hl, hto] at hx
+  | timerReschedule tk n =>
+    intro x hx
+    simp only [step] at hx
+    cases hl : lookup s tk with
+    | none => simp [hl] at hx; subst hx; trivial
+    | some r =>
+      cases hto : r.timeout with
+      | none => simp [hl, hto] at hx; subst hx; trivial
+      | some T => simp [hl, hto] at hx
+  | settle =>
+    intro x hx
+    simp only [step, settle] at hx hw
+    rcases settleWishlist_obs _ (inv_settleTimers h) hw x hx with hx | ⟨rid, rfl, hlt⟩
+    · exact settleTimers_obs h x hx
+    · rw [settleTimers_now, settleTimers_cfg]
+      rw [settleTimers_draws] at hlt
+      exact ⟨rfl, hlt, rfl⟩
+
+/-! ### where the requests of the next state come from -/
+
+/-- every request of `b` has the `rid` of a request of `a`, or is new (`rid > d`) -/
+def RidsFrom (a : List Req) (d : Nat) (b : List Req) : Prop := ∀ r' ∈ b, (∃ r ∈ a, r.rid = r'.rid) ∨ d < r'.rid
+
+theorem RidsFrom.refl (a : List Req) (d : Nat) : RidsFrom a d a := fun r' h => .inl ⟨r', h, rfl⟩
+
+theorem RidsFrom.map {a b : List Req} {d : Nat} (h : RidsFrom a d b) (f : Req → Req) (hf : ∀ r, (f r).rid = r.rid) :
+    RidsFrom a d (b.map f) := by
+  intro r' hr'
+  obtain ⟨q, hq, rfl⟩ := List.mem_map.1 hr'
+  rw [hf]; exact h q hq
+
+theorem RidsFrom.filter {a b : List Req} {d : Nat} (h : RidsFrom a d b) (p : Req → Bool) :
+    RidsFrom a d (b.filter p) := fun r' hr' => h r' (List.mem_filter.1 hr').1
+
+theorem RidsFrom.trans {a b c : List Req} {d d' : Nat} (h1 : RidsFrom a d b) (h2 : RidsFrom b d' c) (hd : d ≤ d') :
+    RidsFrom a d c := by
+  intro r' hr'
+  rcases h2 r' hr' with ⟨q, hq, he⟩ | hlt
+  · rcases h1 q hq with ⟨p, hp, he'⟩ | hlt
+    · exact .inl ⟨p, hp, by omega⟩
+    · exact .inr (by omega)
+  · exact .inr (by omega)
+
+theorem ridsFrom_setHandle (a : List Req) (d rid : Nat) (h : Option Nat) : RidsFrom a d (setHandle a rid h) :=
+  (RidsFrom.refl a d).map _ (by intro r; split <;> rfl)
+
+theorem ridsFrom_setTimeout (a : List Req) (d rid n : Nat) : RidsFrom a d (setTimeout a rid n) :=
+  (RidsFrom.refl a d).map _ (by intro r; split <;> rfl)
+
+theorem ridsFrom_timerCancel (s : State) (rid : Nat) (h : Option Nat) :
+    RidsFrom s.requests s.draws (timerCancel s rid h).requests := by
+  cases h with
+  | none => exact RidsFrom.refl _ _
+  | some id => exact ridsFrom_setHandle _ _ _ _
+
+theorem ridsFrom_newRequest (s : State) (k : Kind) (to : Option Nat) :
+    RidsFrom s.requests s.draws (newRequest s k to).1.requests := by
+  have hreg : RidsFrom s.requests s.draws (registered s k to).requests := by
+    intro r' hr'
+    rcases List.mem_append.1 hr' with h | h
+    · exact .inl ⟨r', (List.mem_filter.1 h).1, rfl⟩
+    · simp at h; subst h; right; simp
+  rw [newRequest_state]
+  cases to with
+  | none => exact hreg
+  | some T => exact hreg.trans (ridsFrom_setHandle _ (s.draws) _ _) (Nat.le_refl _)
+
+theorem ridsFrom_wishlistRound (n : Nat) (s : State) (o : List Obs) :
+    RidsFrom s.requests s.draws (wishlistRound n s o).1.requests := by
+  induction n generalizing s o with
+  | zero => exact RidsFrom.refl _ _
+  | succ n ih =>
+    simp only [wishlistRound]
+    exact (ridsFrom_newRequest s _ _).trans (ih _ _) (by rw [newRequest_draws]; omega)
+
+theorem ridsFrom_settleTimers (s : State) : RidsFrom s.requests s.draws (settleTimers s).1.requests := by
+  rw [settleTimers_state]
+  exact ((RidsFrom.refl _ _).filter _).map _ (by simp)
+
+theorem ridsFrom_settle (s : State) : RidsFrom s.requests s.draws (settle s).1.requests := by
+  unfold settle
+  refine (ridsFrom_settleTimers s).trans ?_ (Nat.le_refl _)
+  rw [← settleTimers_draws s]
+  rcases settleWishlist_cases (settleTimers s).1 (settleTimers s).2 with he | ⟨w, _, _, he⟩
+  · rw [he]; exact RidsFrom.refl _ _
+  · rw [he]; exact ridsFrom_wishlistRound _ _ _
+
+theorem ridsFrom_step (s : State) (op : Op) : RidsFrom s.requests s.draws (step s op).1.requests := by
+  cases op with
+  | search k => exact ridsFrom_newRequest s _ _
+  | wlInterval n => exact RidsFrom.refl _ _
+  | serverClosing => exact RidsFrom.refl _ _
+  | jump d => exact RidsFrom.refl _ _
+  | settle => exact ridsFrom_settle s
+  | remove tk =>
+    simp only [step]
+    cases hl : lookup s tk with
+    | none => exact RidsFrom.refl _ _
+    | some r =>
+      cases hto : r.timeout with
+      | none => simpa [hto] using (RidsFrom.refl s.requests s.draws).filter _
+      | some T =>
+        simp only [hto]
+        exact ((RidsFrom.refl s.requests s.draws).filter _).trans (ridsFrom_timerCancel _ _ _) (Nat.le_refl _)
+  | reply tk =>
+    simp only [step]
+    cases hl : lookup s tk with
+    | none => exact RidsFrom.refl _ _
+    | some r =>
+      simp only []
+      split
+      · exact (RidsFrom.refl _ _).map _ (by intro r; split <;> rfl)
+      · exact RidsFrom.refl _ _
+  | timerCancel tk =>
+    simp only [step]
+    cases hl : lookup s tk with
+    | none => exact RidsFrom.refl _ _
+    | some r =>
+      cases hto : r.timeout with
+      | none => simpa [hto] using RidsFrom.refl s.requests s.draws
+      | some T => simpa [hto] using ridsFrom_timerCancel s r.rid r.handle
+  | timerReschedule tk n =>
+    simp only [step]
+    cases hl : lookup s tk with
+    | none => exact RidsFrom.refl _ _
+    | some r =>
+      cases hto : r.timeout with
+      | none => simpa [hto] using RidsFrom.refl s.requests s.draws
+      | some T =>
+        simp only [hto, timerStart]
+        exact ((ridsFrom_timerCancel s r.rid r.handle).trans (ridsFrom_setTimeout _ s.draws _ _) (Nat.le_refl _)).trans
+          (ridsFrom_setHandle _ s.draws _ _) (Nat.le_refl _)
+
+/-! ### a removed request stays silent -/
+
+def obsRid : Obs → Option Nat
+  | .sent _ rid _ => some rid
+  | .removed _ rid _ _ _ => some rid
+  | .result _ rid _ => some rid
+  | .loopErr _ rid _ _ => some rid
+  | _ => none
+
+/-- request object `rid` exists (its ticket has been drawn) and is not registered -/
+def Gone (rid : Nat) (s : State) : Prop := rid ≤ s.draws ∧ ∀ q ∈ s.requests, q.rid ≠ rid
+
+theorem gone_step {s : State} {rid : Nat} (op : Op) (hg : Gone rid s) : Gone rid (step s op).1 := by
+  refine ⟨Nat.le_trans hg.1 (step_draws s op), ?_⟩
+  intro q hq heq
+  rcases ridsFrom_step s op q hq with ⟨r, hr, he⟩ | hlt
+  · exact hg.2 r hr (by omega)
+  · have := hg.1; omega
+
+theorem gone_step_obs {s : State} {rid : Nat} (op : Op) (h : Inv s) (hw : NoWrap (step s op).1) (hg : Gone rid s) :
+    ∀ x ∈ (step s op).2, obsRid x ≠ some rid := by
+  intro x hx
+  have hok := step_obs op h hw x hx
+  cases x with
+  | sent t r tk => simp only [obsRid, ObsOk] at hok ⊢; have := hg.1; intro hc; cases hc; omega
+  | removed t r tk dl tid =>
+    simp only [obsRid, ObsOk] at hok ⊢
+    obtain ⟨_, _, _, _, q, hq, hqr, _⟩ := hok
+    intro hc; cases hc; exact hg.2 q hq hqr
+  | result t r tk =>
+    simp only [obsRid, ObsOk] at hok ⊢
+    obtain ⟨_, _, q, hq, hqr, _⟩ := hok
+    intro hc; cases hc; exact hg.2 q hq hqr
+  | loopErr t r tk tid => exact absurd hok (by simp [ObsOk])
+  | callerErr => simp [obsRid]
+  | noReq => simp [obsRid]
+  | noTimer => simp [obsRid]
+  | clobber a b => simp [obsRid]
+
+theorem gone_run {rid : Nat} (ops : List Op) (s : State) (h : Inv s) (hw : NoWrap (run s ops).1) (hg : Gone rid s) :
+    ∀ x ∈ (run s ops).2, obsRid x ≠ some rid := by
+  have := run_ind (P := fun s tr => Inv s ∧ Gone rid s ∧ ∀ x ∈ tr, obsRid x ≠ some rid) (G := NoWrap)
+    noWrap_of_step
+    (by
+      intro s tr op ⟨hi, hg, ht⟩ hw
+      refine ⟨inv_step op hi hw, gone_step op hg, ?_⟩
+      intro x hx
+      rcases List.mem_append.1 hx with hx | hx
+      · exact ht x hx
+      · exact gone_step_obs op hi hw hg x hx)
+    ops s [] ⟨h, hg, by simp⟩ hw
+  simpa using this.2.2
+
+/-- after `remove_request` succeeded the request is gone -/
+theorem gone_after_remove {s : State} (h : Inv s) {tk : Nat} {r : Req} (hl : lookup s tk = some r) :
+    Gone r.rid (step s (.remove tk)).1 := by
+  obtain ⟨hr, htk⟩ := lookup_some hl
+  refine ⟨Nat.le_trans (h.req_tk r hr).2.2 (step_draws _ _), ?_⟩
+  intro q hq heq
+  have hsub : ∀ q ∈ (step s (.remove tk)).1.requests, ∃ q0 ∈ s.requests, q0.rid = q.rid ∧ q0.ticket ≠ tk := by
+    intro q hq
+    simp only [step, hl] at hq
+    have hfil : ∀ q ∈ s.requests.filter (fun x => x.ticket ≠ tk), ∃ q0 ∈ s.requests, q0.rid = q.rid ∧ q0.ticket ≠ tk := by
+      intro q hq
+      obtain ⟨h1, h2⟩ := List.mem_filter.1 hq
+      exact ⟨q, h1, rfl, by simpa using h2⟩
+    cases hto : r.timeout with
+    | none => rw [hto] at hq; exact hfil q hq
+    | some T =>
+      rw [hto] at hq
+      cases hh : r.handle with
+      | none => rw [hh] at hq; exact hfil q hq
+      | some id =>
+        rw [hh, timerCancel_some] at hq
+        simp only [setHandle] at hq
+        obtain ⟨q1, hq1, rfl⟩ := List.mem_map.1 hq
+        obtain ⟨q0, hq0, h1, h2⟩ := hfil q1 hq1
+        exact ⟨q0, hq0, by rw [h1]; split <;> rfl, h2⟩
+  obtain ⟨q0, hq0, h1, h2⟩ := hsub q hq
+  have := h.req_uniq q0 hq0 r hr (by omega)
+  subst this
+  exact h2 htk
+
+/-- after a timeout removal was reported the request is gone -/
+theorem gone_after_timeout {s : State} (h : Inv s) (hw : NoWrap (settle s).1) {t rid tk dl tid : Nat}
+    (hx : Obs.removed t rid tk dl tid ∈ (settle s).2) : Gone rid (settle s).1 := by
+  have hok := step_obs .settle h hw _ hx
+  simp only [ObsOk] at hok
+  obtain ⟨_, _, hdl, ⟨task, htask, k1, k2, k3, k4⟩, r, hr, hr1, hr2, hr3⟩ := hok
+  refine ⟨Nat.le_trans (by have := (h.req_tk r hr).2.2; omega) (settle_draws s), ?_⟩
+  -- the request is filtered out when its task fires
+  have hT : ∀ q ∈ (settleTimers s).1.requests, q.rid ≠ rid := by
+    intro q hq heq
+    rw [settleTimers_state] at hq
+    simp only [] at hq
+    obtain ⟨q0, hq0, rfl⟩ := List.mem_map.1 hq
+    obtain ⟨hq0m, hall⟩ := List.mem_filter.1 hq0
+    have : q0 = r := h.req_uniq q0 hq0m r hr (by simpa [hr1] using heq)
+    subst this
+    rw [List.all_eq_true] at hall
+    have hmem : startTask s.now task ∈ (s.tasks.map (startTask s.now)).filter (isDue s.now) := by
+      refine List.mem_filter.2 ⟨List.mem_map.2 ⟨task, htask, rfl⟩, ?_⟩
+      unfold isDue reached
+      simp [k3, k4, hdl]
+    have := hall _ hmem
+    obtain ⟨r', hr', j1, j2, j3⟩ := h.task_live task htask k3
+    have : r' = q0 := h.req_uniq r' hr' q0 hr (by omega)
+    subst this
+    simp [j2] at this
+  intro q hq heq
+  unfold settle at hq
+  rcases settleWishlist_cases (settleTimers s).1 (settleTimers s).2 with he | ⟨w, _, _, he⟩
+  · rw [he] at hq; exact hT q hq heq
+  · rw [he] at hq
+    rcases ridsFrom_wishlistRound _ _ _ q hq with ⟨q0, hq0, h0⟩ | hlt
+    · exact hT q0 hq0 (by omega)
+    · rw [settleTimers_draws] at hlt
+      have := (h.req_tk r hr).2.2
+      omega
+
+/-! ### a timeout removal is reported at most once -/
+
+def removedRid : Obs → Option Nat
+  | .removed _ rid _ _ _ => some rid
+  | _ => none
+
+theorem newRequest_removedRid (s : State) (k : Kind) (to : Option Nat) :
+    (newRequest s k to).2.filterMap removedRid = [] := by
+  unfold newRequest
+  simp only [List.filterMap_append, List.filterMap_map]
+  simp [removedRid, Function.comp_def]
+
+theorem wishlistRound_removedRid (n : Nat) (s : State) (o : List Obs) :
+    (wishlistRound n s o).2.filterMap removedRid = o.filterMap removedRid := by
+  induction n generalizing s o with
+  | zero => rfl
+  | succ n ih => simp only [wishlistRound, ih, List.filterMap_append, newRequest_removedRid, List.append_nil]
+
+theorem settleWishlist_removedRid (s : State) (o : List Obs) :
+    (settleWishlist s o).2.filterMap removedRid = o.filterMap removedRid := by
+  rcases settleWishlist_cases s o with he | ⟨w, _, _, he⟩
+  · rw [he]
+  · rw [he]; exact wishlistRound_removedRid _ _ _
+
+theorem fireAll_obs_eq (F : List TTask) (s : State) (o : List Obs)
+    (hp : F.Pairwise (fun a b => a.id ≠ b.id))
+    (hw : ∀ t ∈ F, ∃ r ∈ s.requests, r.ticket = t.ticket ∧ r.handle = some t.id)
+    (hinj : ∀ r1 ∈ s.requests, ∀ r2 ∈ s.requests, r1.ticket = r2.ticket → r1 = r2) :
+    (fireAll F s o).2 = o ++ F.map (fun t => Obs.removed s.now t.rid t.ticket (t.deadline.getD 0) t.id) := by
+  induction F generalizing s o with
+  | nil => simp [fireAll]
+  | cons t ts ih =>
+    rw [List.pairwise_cons] at hp
+    obtain ⟨rt, hrt, hrt1, hrt2⟩ := hw t (by simp)
+    have hany : s.requests.any (fun r => r.ticket = t.ticket) = true := by
+      rw [List.any_eq_true]; exact ⟨rt, hrt, by simpa using hrt1⟩
+    have hfire : fireTask s t = ({ s with requests := s.requests.filter (fun r => r.ticket ≠ t.ticket) },
+        [Obs.removed s.now t.rid t.ticket (t.deadline.getD 0) t.id]) := by
+      unfold fireTask; rw [if_pos hany]
+    simp only [fireAll, hfire]
+    rw [ih { s with requests := s.requests.filter (fun r => r.ticket ≠ t.ticket) } _ hp.2
+      (by
+        intro t2 ht2
+        obtain ⟨r2, hr2, k1, k2⟩ := hw t2 (by simp [ht2])
+        refine ⟨r2, List.mem_filter.2 ⟨hr2, ?_⟩, k1, k2⟩
+        have : r2.ticket ≠ t.ticket := by
+          intro heq
+          have := hinj r2 hr2 rt hrt (by omega)
+          subst this
+          have : t2.id = t.id := by simpa [k2] using hrt2
+          exact hp.1 t2 ht2 this.symm
+        simpa using this)
+      (by
+        intro r1 h1 r2 h2
+        exact hinj r1 (List.mem_filter.1 h1).1 r2 (List.mem_filter.1 h2).1)]
+    simp [List.append_assoc]
+
+theorem settle_removedRid_nodup {s : State} (h : Inv s) : ((settle s).2.filterMap removedRid).Nodup := by
+  unfold settle
+  rw [settleWishlist_removedRid]
+  have h0 := inv_mapStart s.now h
+  have hF : ∀ t ∈ (s.tasks.map (startTask s.now)).filter (isDue s.now),
+      ∃ r ∈ s.requests, r.rid = t.rid ∧ r.ticket = t.ticket ∧ r.handle = some t.id := by
+    intro t ht
+    obtain ⟨htm, hd⟩ := List.mem_filter.1 ht
+    have hc : t.cancelled = false := by unfold isDue at hd; simp_all
+    exact h0.task_live t htm hc
+  simp only [settleTimers]
+  rw [fireAll_obs_eq _ s [] (h0.task_nodup.filter _)
+    (fun t ht => by obtain ⟨r, hr, _, k2, k3⟩ := hF t ht; exact ⟨r, hr, k2, k3⟩) h.ticket_inj]
+  simp only [List.nil_append, List.filterMap_map]
+  have : (removedRid ∘ fun t : TTask => Obs.removed s.now t.rid t.ticket (t.deadline.getD 0) t.id) = fun t => some t.rid := by
+    funext t; rfl
+  rw [this, List.filterMap_eq_map', List.Nodup, List.pairwise_map]
+  apply List.Pairwise.imp_of_mem _ (h0.task_nodup.filter (isDue s.now))
+  intro a b ha hb hab heq
+  obtain ⟨ra, hra, a1, _, a3⟩ := hF a ha
+  obtain ⟨rb, hrb, b1, _, b3⟩ := hF b hb
+  have := h.req_uniq ra hra rb hrb (by omega)
+  subst this
+  rw [a3] at b3
+  exact hab (by simpa using b3)
+
+theorem step_removedRid_nodup {s : State} (op : Op) (h : Inv s) (hw : NoWrap (step s op).1) :
+    ((step s op).2.filterMap removedRid).Nodup := by
+  by_cases hop : op = .settle
+  · subst hop; exact settle_removedRid_nodup h
+  · have : (step s op).2.filterMap removedRid = [] := by
+      rw [List.filterMap_eq_nil_iff]
+      intro x hx
+      have hok := step_obs op h hw x hx
+      cases x with
+      | removed t r tk dl tid => exact absurd hok.1 hop
+      | _ => rfl
+    rw [this]; exact List.nodup_nil
+
+theorem removed_once (cfg : Cfg) (ops : List Op) (hw : NoWrap (run (init cfg) ops).1) :
+    ((run (init cfg) ops).2.filterMap removedRid).Nodup := by
+  have := run_ind (P := fun s tr => Inv s ∧ (∀ rid ∈ tr.filterMap removedRid, Gone rid s) ∧
+      (tr.filterMap removedRid).Nodup) (G := NoWrap) noWrap_of_step
+    (by
+      intro s tr op ⟨hi, hg, hn⟩ hw
+      have hnew : ∀ rid ∈ (step s op).2.filterMap removedRid,
+          (∃ r ∈ s.requests, r.rid = rid) ∧ Gone rid (step s op).1 := by
+        intro rid hrid
+        obtain ⟨x, hx, hxr⟩ := List.mem_filterMap.1 hrid
+        cases x with
+        | removed t r tk dl tid =>
+          simp only [removedRid, Option.some.injEq] at hxr
+          subst hxr
+          have hok := step_obs op hi hw _ hx
+          obtain ⟨hop, _, _, _, q, hq, hq1, _⟩ := hok
+          subst hop
+          exact ⟨⟨q, hq, hq1⟩, gone_after_timeout hi hw hx⟩
+        | _ => simp [removedRid] at hxr
+      refine ⟨inv_step op hi hw, ?_, ?_⟩
+      · intro rid hrid
+        rw [List.filterMap_append] at hrid
+        rcases List.mem_append.1 hrid with h1 | h1
+        · exact gone_step op (hg rid h1)
+        · exact (hnew rid h1).2
+      · rw [List.filterMap_append, List.nodup_append]
+        refine ⟨hn, step_removedRid_nodup op hi hw, ?_⟩
+        intro a ha b hb hab
+        subst hab
+        obtain ⟨⟨q, hq, hq1⟩, _⟩ := hnew a hb
+        exact (hg a ha).2 q hq hq1)
+    ops (init cfg) [] ⟨inv_init cfg, by simp, by simp⟩ hw
+  simpa using this.2.2
+
+/-! ### timing: not before, not late, on the dot -/
+
+/-- every pending task is un-cancelled, has started, and its deadline lies in the future -/
+def Ahead (s : State) : Prop := ∀ t ∈ s.tasks, t.cancelled = false ∧ ∃ d, t.deadline = some d ∧ s.now < d
+
+/-- no pending un-cancelled task is overdue -/
+def OnTime (s : State) : Prop := ∀ t ∈ s.tasks, t.cancelled = false → ∀ d, t.deadline = some d → s.now ≤ d
+
+theorem wishlistTimeout_pos {s : State} {T : Nat} (h : wishlistTimeout s = some T) : 1 ≤ T := by
+  unfold wishlistTimeout at h
+  simp only [] at h
+  generalize (if s.cfg.wishlistTimeout < 0 then s.wlInterval.getD defaultWishlistInterval
+    else s.cfg.wishlistTimeout.toNat) = v at h
+  by_cases hv : v = 0
+  · simp [hv] at h
+  · simp [hv] at h; omega
+
+theorem newRequest_tasks (s : State) (k : Kind) (to : Option Nat) :
+    ∀ t ∈ (newRequest s k to).1.tasks, t ∈ s.tasks ∨ (t.cancelled = false ∧ t.deadline = none ∧ to = some t.timeout) := by
+  intro t ht
+  rw [newRequest_state] at ht
+  cases to with
+  | none => exact .inl ht
+  | some T =>
+    simp only [timerStart, registered] at ht
+    rcases List.mem_append.1 ht with h | h
+    · exact .inl h
+    · simp at h; subst h; exact .inr ⟨rfl, rfl, rfl⟩
+
+theorem wishlistRound_tasks (n : Nat) (s : State) (o : List Obs) :
+    ∀ t ∈ (wishlistRound n s o).1.tasks, t ∈ s.tasks ∨ (t.cancelled = false ∧ t.deadline = none ∧ 1 ≤ t.timeout) := by
+  induction n generalizing s o with
+  | zero => intro t ht; exact .inl ht
+  | succ n ih =>
+    intro t ht
+    simp only [wishlistRound] at ht
+    rcases ih _ _ t ht with h | h
+    · rcases newRequest_tasks _ _ _ t h with h | ⟨h1, h2, h3⟩
+      · exact .inl h
+      · exact .inr ⟨h1, h2, wishlistTimeout_pos h3⟩
+    · exact .inr h
+
+theorem startTask_deadline (n : Nat) (t : TTask) :
+    (startTask n t).deadline = some (match t.deadline with | none => n + t.timeout | some d => d) := by
+  unfold startTask; split <;> simp_all
+
+theorem settle_now (s : State) : (settle s).1.now = s.now := by
+  unfold settle
+  rcases settleWishlist_cases (settleTimers s).1 (settleTimers s).2 with he | ⟨w, _, _, he⟩
+  · rw [he, settleTimers_now]
+  · rw [he]; simp [wishlistRound_now, settleTimers_now]
+
+/-- **not late**: when the loop has run, whatever is still pending is not yet due -/
+theorem settle_ahead (s : State) : Ahead (settle s).1 := by
+  have hT : ∀ t ∈ (settleTimers s).1.tasks, t.cancelled = false ∧ ∃ d, t.deadline = some d ∧ s.now < d := by
+    intro t ht
+    rw [settleTimers_state] at ht
+    obtain ⟨htm, hnf⟩ := List.mem_filter.1 ht
+    obtain ⟨t0, _, rfl⟩ := List.mem_map.1 htm
+    unfold isFinishing reached at hnf
+    rw [startTask_deadline] at hnf ⊢
+    simp only [Bool.not_or, Bool.and_eq_true, Bool.not_eq_true', decide_eq_false_iff_not] at hnf
+    exact ⟨hnf.1, _, rfl, by omega⟩
+  intro t ht
+  rw [settle_now]
+  unfold settle at ht
+  rcases settleWishlist_cases (settleTimers s).1 (settleTimers s).2 with he | ⟨w, _, _, he⟩
+  · rw [he] at ht; exact hT t ht
+  · rw [he] at ht
+    simp only [] at ht
+    obtain ⟨t0, ht0, rfl⟩ := List.mem_map.1 ht
+    rw [settleTimers_now]
+    rcases wishlistRound_tasks _ _ _ t0 ht0 with h | ⟨h1, h2, h3⟩
+    · obtain ⟨k1, d, k2, k3⟩ := hT t0 h
+      rw [startTask_deadline, k2]
+      exact ⟨by simpa using k1, d, rfl, k3⟩
+    · rw [startTask_deadline, h2]
+      exact ⟨by simpa using h1, _, rfl, by show s.now < s.now + t0.timeout; omega⟩
+
+theorem removed_mem_wishlistRound (n : Nat) (s : State) (o : List Obs) {t rid tk dl tid : Nat}
+    (hx : Obs.removed t rid tk dl tid ∈ (wishlistRound n s o).2) : Obs.removed t rid tk dl tid ∈ o := by
+  induction n generalizing s o with
+  | zero => exact hx
+  | succ n ih =>
+    simp only [wishlistRound] at hx
+    have := ih _ _ hx
+    rcases List.mem_append.1 this with h | h
+    · exact h
+    · unfold newRequest at h; simp at h
+
+theorem removed_mem_settle (s : State) {t rid tk dl tid : Nat} (hx : Obs.removed t rid tk dl tid ∈ (settle s).2) :
+    ∃ t0 ∈ s.tasks, t0.cancelled = false ∧ t = s.now ∧ (startTask s.now t0).deadline = some dl ∧ dl ≤ s.now ∧
+      t0.id = tid ∧ t0.rid = rid := by
+  unfold settle at hx
+  have hx' : Obs.removed t rid tk dl tid ∈ (settleTimers s).2 := by
+    rcases settleWishlist_cases (settleTimers s).1 (settleTimers s).2 with he | ⟨w, _, _, he⟩
+    · rw [he] at hx; exact hx
+    · rw [he] at hx; exact removed_mem_wishlistRound _ _ _ hx
+  simp only [settleTimers] at hx'
+  rcases fireAll_obs_mem _ _ _ _ hx' with h | ⟨f, hf, h | h⟩
+  · cases h
+  · obtain ⟨hfm, hd⟩ := List.mem_filter.1 hf
+    obtain ⟨t0, ht0, rfl⟩ := List.mem_map.1 hfm
+    unfold isDue reached at hd
+    rw [startTask_deadline] at hd h
+    simp only [Bool.and_eq_true, Bool.not_eq_true', decide_eq_true_eq, startTask_cancelled] at hd
+    simp only [Option.getD_some, Obs.removed.injEq, startTask_rid, startTask_ticket, startTask_id] at h
+    obtain ⟨h1, h2, _, h4, h5⟩ := h
+    refine ⟨t0, ht0, hd.1, h1, ?_, ?_, h5.symm, h2.symm⟩
+    · rw [startTask_deadline, h4]
+    · rw [h4]; exact hd.2
+  · cases h
+
+/-- **on the dot**: if nothing pending is overdue, a removal reported by this run of the loop happens
+exactly at its deadline -/
+theorem settle_exact {s : State} (h : OnTime s) {t rid tk dl tid : Nat}
+    (hx : Obs.removed t rid tk dl tid ∈ (settle s).2) : t = dl := by
+  obtain ⟨t0, ht0, hc, rfl, hd, hle, _⟩ := removed_mem_settle s hx
+  rw [startTask_deadline] at hd
+  cases h0 : t0.deadline with
+  | none => rw [h0] at hd; simp at hd; omega
+  | some d =>
+    rw [h0] at hd; simp at hd
+    have := h t0 ht0 hc d h0
+    omega
+
+theorem onTime_of_ahead_jump1 {s : State} (h : Ahead s) : OnTime (step s (.jump 1)).1 := by
+  intro t ht _ d hd
+  obtain ⟨_, d', h1, h2⟩ := h t ht
+  simp only [step] at hd ⊢
+  rw [h1] at hd; cases hd; omega
+
+theorem removed_is_settle (s : State) (op : Op) {t rid tk dl tid : Nat}
+    (hx : Obs.removed t rid tk dl tid ∈ (step s op).2) : op = .settle := by
+  cases op <;> simp only [step] at hx
+  · unfold newRequest at hx; simp at hx
+  · cases hx
+  · cases hx
+  · split at hx <;> simp at hx
+  · split at hx <;> simp at hx
+  · split at hx
+    · simp at hx
+    · split at hx <;> simp at hx
+  · split at hx
+    · simp at hx
+    · split at hx <;> simp at hx
+  · cases hx
+  · rfl
+
+theorem sleep_exact (d : Nat) {s : State} (h : OnTime s) :
+    (∀ t rid tk dl tid, Obs.removed t rid tk dl tid ∈ (run s (sleepOps d)).2 → t = dl) ∧
+    Ahead (run s (sleepOps d)).1 := by
+  induction d generalizing s with
+  | zero =>
+    simp only [sleepOps, run_cons, run_nil, List.append_nil]
+    exact ⟨fun t rid tk dl tid hx => settle_exact h hx, settle_ahead s⟩
+  | succ d ih =>
+    simp only [sleepOps, run_cons]
+    have h1 : OnTime (step (step s .settle).1 (.jump 1)).1 := onTime_of_ahead_jump1 (settle_ahead s)
+    obtain ⟨ih1, ih2⟩ := ih h1
+    refine ⟨?_, ih2⟩
+    intro t rid tk dl tid hx
+    rcases List.mem_append.1 hx with hx | hx
+    · exact settle_exact h hx
+    · rcases List.mem_append.1 hx with hx | hx
+      · cases hx
+      · exact ih1 t rid tk dl tid hx
+
 end AioslskVerif.Search
